@@ -184,6 +184,11 @@ func (c *c16Chain) twinLabels(n uint64) []string {
 		byID[fi.identity] = append(byID[fi.identity], fi)
 	}
 	set := map[string]bool{}
+	for _, fi := range info {
+		if lg := c.m.chain.Canonical(fi.block).Logs[fi.logIdx]; len(lg.Data)%32 != 0 {
+			set["fired-by-log-whose-data-ends-inside-a-word"] = true
+		}
+	}
 	for _, fis := range byID {
 		if len(fis) < 2 {
 			continue
@@ -326,6 +331,7 @@ func genC16Chain(rt *rapid.T, exclReReg bool, rec *Recorder) *c16Chain {
 	var desc []string
 	ttls := []uint64{0, 1, 1, 2, 3, 6, 6, 12, 40}
 	regsOf := map[int][][2]uint64{}
+	cutLabels := map[string]bool{}
 	for i := range c.trig {
 		t := c.trig[i]
 		l := fmt.Sprintf("t%d", i)
@@ -416,7 +422,19 @@ func genC16Chain(rt *rapid.T, exclReReg bool, rec *Recorder) *c16Chain {
 				n = max(r+1, min(n, e, maxN))
 			}
 			want := rapid.IntRange(0, 9).Draw(rt, ll+"want") < 7 || (j == 0 && rapid.Bool().Draw(rt, ll+"want0")) || outsideOnly
-			spec := genLogFor(rt, ll, &t.def, want)
+			spec, cut := genLogForInfo(rt, ll, &t.def, want)
+			if cut != "" && t.valid {
+				verdict, _ := refMatch(&t.def, specAsLog(spec))
+				cutLabels["chain:log-data-ends-inside-referenced-static-word"] = true
+				if verdict {
+					cutLabels["log-data-ends-inside-referenced-static-word:matching"] = true
+				} else {
+					cutLabels["log-data-ends-inside-referenced-static-word:near-miss"] = true
+				}
+				if cut == "cut+decides" {
+					cutLabels["log-data-ends-inside-referenced-static-word:padded-value-decides(zero-would-not)"] = true
+				}
+			}
 			place(ll, n, c16Item{order: order, desc: fmt.Sprintf("log(t%d,%v)", i, want), mk: func(*branchState, uint64) scriptLog { return scriptLog{spec, &refEvent{}} }}, sides)
 			desc = append(desc, fmt.Sprintf("t%d-log@%d", i, n))
 		}
@@ -451,6 +469,18 @@ func genC16Chain(rt *rapid.T, exclReReg bool, rec *Recorder) *c16Chain {
 		c.bBlocks = build(nt, 'B', c.f+1, c.b)
 	}
 	c.rel = c.relationLabels()
+	for lb := range cutLabels {
+		c.rel = append(c.rel, lb)
+	}
+	for _, t := range c.trig {
+		for _, p := range t.def.LogPredicates {
+			if t.valid && !p.LogValueRef.Dynamic && p.LogValueRef.Offset >= 4 && p.LogValueRef.Offset < 64 {
+				c.rel = append(c.rel, "chain:definition-with-static-data-predicate")
+			}
+		}
+	}
+	sort.Strings(c.rel)
+	c.rel = dedup(c.rel)
 	c.desc = fmt.Sprintf("f=%d a=%d b=%d fork=%v %s", c.f, c.a, c.b, c.fork, strings.Join(desc, " "))
 	for i, t := range c.trig {
 		c.desc += fmt.Sprintf(" T%d{eon=%d valid=%v twinOf=%d %s}", i, t.eon, t.valid, t.twinOf, defDesc(&t.def))
